@@ -319,6 +319,9 @@ type Property[C any] struct {
 	// Pre runs before the generated search (exhaustive enumerations); it returns a failing case
 	// and its findings, or no findings.
 	Pre func(ev *Evid) (C, []Finding)
+	// Trim optionally cuts a failing case down before it is saved (e.g. drop the operations after
+	// the failing step); the trimmed case is saved only if it still fails.
+	Trim func(c C) C
 }
 
 type replayFile[C any] struct {
@@ -385,6 +388,12 @@ func RunProperty[C any](t *testing.T, p Property[C]) {
 
 	report := func(c C, fs []Finding, path string) {
 		if path == "" {
+			if p.Trim != nil {
+				tc := p.Trim(c)
+				if tfs, _ := ev.filterKnown(safeRun(p, tc, newEvid(p.ID))); len(tfs) > 0 {
+					c, fs = tc, tfs
+				}
+			}
 			path = saveReplay(p.ID, c, fs)
 		}
 		rec := violationRecord{Property: p.ID, Replay: path}
@@ -489,6 +498,9 @@ func RunProperty[C any](t *testing.T, p Property[C]) {
 			c := p.Gen(rt)
 			fs, _ := ev.filterKnown(safeRun(p, c, ev))
 			ev.invocations++
+			if len(ev.samples) == 0 && ev.invocations == 50 {
+				ev.Sample(c) // make sure the evidence shows at least one actual case
+			}
 			if len(fs) > 0 {
 				lastFail.set, lastFail.c, lastFail.fs = true, c, fs
 				rt.Fatalf("%d finding(s); first: %s", len(fs), fs[0])
